@@ -215,6 +215,7 @@ class Crazyflie():
         if (self.link is not None):
             self.link.close()
         self.link = None
+        self._answer_patterns = {}
         if (self.state == State.INITIALIZED):
             self.connection_failed.call(self.link_uri, errmsg)
         elif (self.state == State.CONNECTED or
